@@ -37,6 +37,7 @@ type EntrySpec struct {
 	MaxPaths       int                 `json:"max_paths"`
 	TimeoutMs      int                 `json:"timeout_ms"`
 	ForkMap        bool                `json:"fork_map_order"`
+	NoForkMap      bool                `json:"no_fork_map_order"`
 	AllowCuts      bool                `json:"allow_cuts"`
 	CutReason      string              `json:"cut_reason"`
 	Redirects      map[string]string   `json:"redirects"`
@@ -330,7 +331,7 @@ func cmdCheck(args []string) int {
 			wall = map[string]int{"quick": 420, "thorough": 3600}[*tier]
 		}
 		cfg.Deadline = time.Now().Add(time.Duration(wall) * time.Second)
-		cfg.ForkMapOrder = es.ForkMap
+		cfg.ForkMapOrder = !es.NoForkMap // every iteration order of every map range is explored unless the entry opts out
 		cfg.AllowCuts = es.AllowCuts
 		cfg.CheckOverflow = es.Overflow
 		cfg.AccessLog = es.Schedule
